@@ -22,6 +22,21 @@ def comp_family(seed, n, maxlen=3, budget=2500):
     return fam + D.prefix_cmd_family(seed + 2, 6)
 
 
+def group_comp_family(seed, n, budget):
+    rnd = random.Random(seed)
+    fam = D.alt_family(seed, n // 2, maxlen=3, budget=budget) + D.adj_family(seed + 1, n // 4, maxlen=3, budget=budget) + \
+        D.acmd_family(seed + 2, n - n // 2 - n // 4, maxlen=3, budget=budget)
+    for d in fam:
+        d["alpha"]["clusters"] = False
+        d["alpha"]["spells"] = [x for x in d["alpha"]["spells"] if x != "glued"] or ["sep"]
+        for it in [l for f in d["named"] for l in D.field_leaves(f)]:
+            if it["kind"] == "arg" and it["vt"] != "int" and rnd.random() < 0.5:
+                it["completer"] = [f"cv{it['id']}a", f"cv{it['id']}b"]
+            if rnd.random() < 0.2:
+                it["hidden"] = True
+    return fam
+
+
 def expand(cases, out):
     n = 0
     with open(out, "w") as w:
@@ -145,9 +160,21 @@ def run(v):
     summ = run_replay(hbin, dpath, cases, mm)
     for m in read_ndjson(mm):
         v.report(sig(m), {k: m[k] for k in m if k != "def_full"} | {"def": m.get("def_full", m.get("def"))})
+    # one level with choices, adjacent groups and adjacent subcommands (GroupLine.tla)
+    gfam = group_comp_family(SEED + 2140, 16 if q else 60, 1200 if q else 8000)
+    gpath = os.path.join(WORK, f"C14-{v.tier}-gdefs.ndjson")
+    D.write_ndjson(gpath, gfam)
+    graw, gmeta = cached_tlc_cases("C14-gcomplete", "MC_GroupLine", "MC_GroupLine_complete.cfg", gpath)
+    gcases = os.path.join(WORK, f"C14-{v.tier}-gcases.ndjson")
+    gn = expand(graw, gcases)
+    gmm = os.path.join(WORK, f"C14-{v.tier}-gmm.ndjson")
+    gsumm = run_replay(hbin, gpath, gcases, gmm)
+    for m in read_ndjson(gmm):
+        v.report(sig(m), {k: m[k] for k in m if k != "def_full"} | {"def": m.get("def_full", m.get("def"))})
     tv = driver(v, hbin, comp_family(SEED + 1140, 30 if q else 120, maxlen=2, budget=10**9), 12000 if q else 200000)
-    cov = {"driver_requests_validated_by_tlc": tv, "states": meta["distinct"], "transitions": meta["states"], "traces_validated_against_impl": summ["cases"],
-           "definitions": len(fam), "completion_requests": n, "impl_classes": summ["classes"],
+    cov = {"driver_requests_validated_by_tlc": tv, "states": meta["distinct"], "transitions": meta["states"], "traces_validated_against_impl": summ["cases"] + gsumm["cases"],
+           "definitions": len(fam) + len(gfam), "completion_requests": n + gn, "group_states": gmeta["distinct"],
+           "group_completion_requests": gn, "impl_classes": summ["classes"],
            "distinct_nontrivial": n,
            "samples": [{"def": c["def"], "line": [i["txt"] for i in c["line"]], "partial": c["partial"], "must": c["expect"]["must"],
                         "may": c["expect"]["may"]} for c in sample_cases(cases, 3, lambda c: len(c["line"]) >= 1 and c["expect"]["must"])],
